@@ -196,3 +196,4 @@ def _():
 @ghost_at('mqtt.client.pubsubs.MQTTProtocol.handlePUBREC', after='reply.encode()')
 def _():
     gset(reply.g_base, as_bytes(reply.encoded))
+    gset(reply.g_addr, self.addr)
